@@ -133,7 +133,7 @@ def inlined(fx, fn, depth=3, stop=(), _seen=None, _cache={}):
             f = t.get("fn") or {}
             p = f.get("path")
             g = fx.fns.get(p)
-            if g is not None and f.get("kind") == "virtual" and p not in seen and p not in stop and _not_overridden(fx, p):
+            if g is not None and f.get("kind") in ("virtual", "unresolved") and p not in seen and p not in stop and _not_overridden(fx, p):
                 pass        # a provided trait method nobody overrides: the dyn call can only run this body
             elif g is None or p in seen or p in stop or f.get("kind") not in (None, "item"):
                 continue
